@@ -295,6 +295,11 @@ class EventReplayer:
 
         elif event.event_type == EventType.STAGE_CANCELED:
             stage["status"] = "CANCELED"
+            # CancelStage cancels the stage's unfinished tasks in the same commit
+            # and records this one event for all of them.
+            for task in state.tasks.values():
+                if task.get("stage_id") == stage_id and task.get("status") == "RUNNING":
+                    task["status"] = "CANCELED"
 
     def _apply_task_event(self, state: WorkflowState, event: Event) -> None:
         """Apply a task event."""
